@@ -118,7 +118,7 @@ func genHashedCollections(t *rapid.T) vlib.Project {
 	var sb strings.Builder
 	sb.WriteString("JSIGHT 0.3\n")
 	k := rapid.IntRange(2, 5).Draw(t, "k")
-	switch rapid.IntRange(0, 7).Draw(t, "template") {
+	switch rapid.IntRange(0, 10).Draw(t, "template") {
 	case 0: // several self-recursive / mutually recursive macros
 		for i := 0; i < k; i++ {
 			fmt.Fprintf(&sb, "MACRO @m%d\n(\n  PASTE @m%d\n)\n", i, (i+rapid.IntRange(0, 1).Draw(t, "next"))%k)
@@ -153,12 +153,86 @@ func genHashedCollections(t *rapid.T) vlib.Project {
 		for i := 0; i < k; i++ {
 			fmt.Fprintf(&sb, "GET /x%d\n  200 regex\n  /[a-z]{5}[0-9]{3}x%d/\n", i, i)
 		}
+	case 8, 9: // one Path directive repeats several parameters an earlier one described
+		names := []string{"x", "y", "z", "w", "v"}[:k]
+		sb.WriteString("URL /a")
+		for _, n := range names {
+			sb.WriteString("/{" + n + "}")
+		}
+		body := func(order []int) string {
+			var ps []string
+			for _, i := range order {
+				ps = append(ps, fmt.Sprintf("\"%s\": %d", names[i], i))
+			}
+			return "{" + strings.Join(ps, ", ") + "}"
+		}
+		fwd := make([]int, k)
+		for i := range fwd {
+			fwd[i] = i
+		}
+		second := rapid.Permutation(fwd).Draw(t, "secondOrder")
+		sb.WriteString("\n  Path\n  " + body(fwd) + "\n")
+		if rapid.Bool().Draw(t, "secondAtMethod") {
+			sb.WriteString("  GET\n    Path\n    " + body(second) + "\n    200 any\n")
+		} else {
+			sb.WriteString("  Path\n  " + body(second) + "\n  GET\n    200 any\n")
+		}
 	default: // several types each with its own body error
 		for i := 0; i < k; i++ {
 			fmt.Fprintf(&sb, "TYPE @b%d\n{\"k\": @missing%d}\n", i, i)
 		}
 	}
 	return vlib.Single(sb.String())
+}
+
+// genSiblings draws two projects whose schema bodies are byte-identical while
+// a declaration the bodies depend on (an enum's values, a type's body, a
+// type's presence) differs: anything the library remembers about a body from
+// one project must not reach the next.
+func genSiblings(t *rapid.T) []vlib.Project {
+	n := rapid.IntRange(0, 999).Draw(t, "sibN")
+	var declA, declB, use string
+	switch rapid.IntRange(0, 3).Draw(t, "sibKind") {
+	case 0: // an enum's values; no TYPE in the project
+		declA = fmt.Sprintf("ENUM @e%d\n[\"a%d\", \"b\"]\n", n, n)
+		declB = fmt.Sprintf("ENUM @e%d\n[\"c%d\", \"d\"]\n", n, n)
+		use = fmt.Sprintf("{\n  \"k%d\": \"a%d\" // {enum: @e%d}\n}", n, n, n)
+	case 1: // a type's body
+		declA = fmt.Sprintf("TYPE @t%d\n12\n", n)
+		declB = fmt.Sprintf("TYPE @t%d\n\"text\"\n", n)
+		use = fmt.Sprintf("{\n  \"k%d\": 5 // {type: \"@t%d\"}\n}", n, n)
+	case 2: // a type's presence
+		declA = fmt.Sprintf("TYPE @t%d\n{\"a\": 1}\n", n)
+		declB = ""
+		use = fmt.Sprintf("{\n  \"k%d\": @t%d\n}", n, n)
+	default: // an enum used inside a type
+		declA = fmt.Sprintf("ENUM @e%d\n[1, 2, %d]\nTYPE @t%d\n{\"v\": 2 // {enum: @e%d}\n}\n", n, n+3, n, n)
+		declB = fmt.Sprintf("ENUM @e%d\n[7, 8, %d]\nTYPE @t%d\n{\"v\": 2 // {enum: @e%d}\n}\n", n, n+9, n, n)
+		use = fmt.Sprintf("{\n  \"k%d\": @t%d\n}", n, n)
+	}
+	ind := func(s string) string { return "  " + strings.ReplaceAll(s, "\n", "\n  ") }
+	var host string
+	switch rapid.IntRange(0, 3).Draw(t, "sibHost") {
+	case 0:
+		host = fmt.Sprintf("GET /s%d\n  200\n%s\n", n, ind(use))
+	case 1:
+		host = fmt.Sprintf("POST /s%d\n  Request\n%s\n  200 any\n", n, ind(use))
+	case 2:
+		host = fmt.Sprintf("URL /s%d\n  Protocol json-rpc-2.0\n  Method m\n    Params\n%s\n", n, ind(ind(use)))
+	default:
+		host = fmt.Sprintf("TYPE @host%d\n%s\nGET /s%d\n  200 @host%d\n", n, use, n, n)
+	}
+	mk := func(decl string) vlib.Project {
+		if rapid.Bool().Draw(t, "declFirst") {
+			return vlib.Single("JSIGHT 0.3\n" + decl + host)
+		}
+		return vlib.Single("JSIGHT 0.3\n" + host + decl)
+	}
+	a, b := mk(declA), mk(declB)
+	if rapid.Bool().Draw(t, "sibSwap") {
+		a, b = b, a
+	}
+	return []vlib.Project{a, b}
 }
 
 // c03Child: when started with VERIF_C03_CHILD the test binary reads projects
@@ -369,7 +443,11 @@ func TestC03(t *testing.T) {
 	vlib.Rapid(h, "fresh-and-busy-process", (nsample+49)/50, func(t *rapid.T) []vlib.Project {
 		var pp []vlib.Project
 		for i := 0; i < 50; i++ {
-			switch rapid.IntRange(0, 2).Draw(t, "src") {
+			switch rapid.IntRange(0, 3).Draw(t, "src") {
+			case 3:
+				pp = append(pp, genSiblings(t)...)
+				i++
+				continue
 			case 0:
 				pp = append(pp, genHashedCollections(t))
 			case 1:
